@@ -35,6 +35,8 @@ Bad(e) ==
         id \in DOMAIN rmap /\ rmap[id] \in DOMAIN results /\ ~(rmap[id] \in touched' \/ results[rmap[id]].view)
      THEN {"C12.result_changed"} ELSE {})
   \cup (IF MakesResult(e) /\ ~e.same THEN {"C12.result_differs"} ELSE {})
+  \* overwriting a result changed the text the caller had passed in: the result was the caller's input memory
+  \cup (IF e.ev = "ScribbleResult" /\ ~e.same THEN {"C12.result_aliases_input"} ELSE {})
 
 Reset ==
   /\ Trace[l].ev = "Start"
